@@ -6,7 +6,7 @@ and of each relevant quick check (1 = VIOLATION reported = caught)."""
 import json, os, re, subprocess, sys
 
 VERIF = os.path.dirname(os.path.dirname(os.path.abspath(__file__)))
-WT = "/tmp/wt-seedtest"
+WT = os.environ.get("SEED_WT", "/tmp/wt-seedtest")
 PP = ":".join("%s/%s" % (WT, p) for p in ("src", "plugins/fcp_dbc", "plugins/fcp_can_c", "plugins/fcp_cpp", "plugins/fcp_nop"))
 
 
@@ -25,10 +25,10 @@ def reset():
 def demo(d):
     src = open(os.path.join(d, "demo.py")).read()
     src = re.sub(r"/tmp/seed/C\d\d", WT, src)
-    open("/tmp/seedmatrix_demo.py", "w").write(src)
+    open("/tmp/seedmatrix_demo_%s.py" % os.path.basename(WT), "w").write(src)
     env = dict(os.environ, PYTHONPATH=PP)
     try:
-        return subprocess.run(["/venv/bin/python", "/tmp/seedmatrix_demo.py"], cwd=WT, env=env, capture_output=True, text=True, timeout=900).returncode
+        return subprocess.run(["/venv/bin/python", "/tmp/seedmatrix_demo_%s.py" % os.path.basename(WT)], cwd=WT, env=env, capture_output=True, text=True, timeout=900).returncode
     except subprocess.TimeoutExpired:
         return "timeout"
 
